@@ -486,6 +486,46 @@ func runSign(c *engine.Ctx) {
 	}
 }
 
+// runSignShapes: signatures whose components have a particular SHAPE that a random nonce produces only with
+// probability 2^-8 / 2^-16: h with one and two leading zero bytes (the *big.Int API of Sign/Verify drops them), S with
+// a leading zero byte in x. The nonce is searched deterministically with the reference.
+func runSignShapes(c *engine.Ctx) {
+	ks := chain("signshape/ks")
+	c.Case("sign/shapes/h-and-S-with-leading-zero-bytes", func(t *engine.T) {
+		d := newTranscript()
+		w := newSignWorld(t, ks, uidOf(baseUIDLen), 1)
+		if w == nil {
+			return
+		}
+		msg := msgOf(20)
+		type shape struct {
+			name string
+			ok   func(h *big.Int, s []byte) bool
+			max  int
+		}
+		for _, sh := range []shape{
+			{"h-top-byte-zero", func(h *big.Int, s []byte) bool { return h.BitLen() <= 248 }, 6000},
+			{"S.x-top-byte-zero", func(h *big.Int, s []byte) bool { return len(s) == 65 && s[1] == 0 }, 6000},
+			{"S.y-top-byte-zero", func(h *big.Int, s []byte) bool { return len(s) == 65 && s[33] == 0 }, 6000},
+		} {
+			var found *big.Int
+			for i := 0; i < sh.max && found == nil; i++ {
+				r := chain(fmt.Sprintf("signshape/%s/%d", sh.name, i))
+				if h, s, _, ok := w.expectSig(msg, r); ok && sh.ok(h, s) {
+					found = r
+				}
+			}
+			if found == nil {
+				t.Extra("sign_shape_not_found_"+sh.name, 1)
+				continue
+			}
+			checkSign(t, d, w, msg, found, "shape/"+sh.name)
+			t.Nontrivial("sign-shape/" + sh.name)
+		}
+		d.finish(t)
+	})
+}
+
 // runStar varies one independent axis at a time around the base case.
 func runStar(c *engine.Ctx) {
 	baseKs, baseR := chain("star/k"), chain("star/r")
